@@ -14,12 +14,15 @@ insertion order; `dictSet` is `d[k] = v`.
 namespace EkwVerif.Lower
 
 /-- A Python value as far as C10 needs to look into it. `tok` = a value produced by some task,
+`data` = any other picklable value that is not a `str` (float, bool, list, tuple, dict, ndarray, ...; the string is
+its canonical rendering — lowering and the runner never look inside, `isinstance(e, str)` is false for it),
 `obj` = something that cannot be put into shared memory (a generator object, ...). -/
 inductive Val where
   | none
   | str (s : String)
   | int (i : Int)
   | tok (s : String)
+  | data (s : String)
   | obj (s : String)
   deriving DecidableEq, Repr, Inhabited
 
@@ -42,11 +45,14 @@ def InRef.source : InRef → Ds
   | .dflt p => ⟨p, defaultOutput⟩
   | .named p o => ⟨p, o⟩
 
-/-- A serialised node as `node2task` sees it. `payload = none` stands for a payload that is not a tuple. -/
+/-- A serialised node as `node2task` sees it. `payload = none` stands for a payload that is not a tuple;
+`payloadAbsent` says that the serialised dict has no `"payload"` key at all (`Node.serialise` omits it when the
+payload is `None`), so that `node["payload"]` is a `KeyError`. -/
 structure SNode where
   payload : Option (List Val × List (String × Val))   -- (args, kwargs); the callable is carried along untouched
   inputs : List (String × InRef)                      -- dict: input name -> source
   outputs : List String
+  payloadAbsent : Bool := false
   deriving Repr
 
 structure Edge where
@@ -64,7 +70,7 @@ structure Task where
   deriving Repr
 
 inductive LowerErr where
-  | keyError          -- an input that no string argument names (`rev_lookup[param]`)
+  | keyError          -- an input that no string argument names (`rev_lookup[param]`), or no `"payload"` key
   | notImplemented    -- payload is not a tuple
   deriving DecidableEq, Repr
 
@@ -148,7 +154,7 @@ def enumFrom {α : Type} : Nat → List α → List (Nat × α)
 
 def node2task (name : String) (n : SNode) : Except LowerErr (Task × List Edge) :=
   match n.payload with
-  | none => .error .notImplemented
+  | none => .error (if n.payloadAbsent then .keyError else .notImplemented)
   | some (args, kwargs) =>
     match lowerInputs name args n.inputs ([], args) with
     | .error e => .error e
